@@ -11,7 +11,7 @@ pub fn preprocess(expr: &str, file_id: FileID) -> Result<String, Box<Report>> {
     let mut loc = 0;
     let mut block_start = 0;
 
-    let mut it = expr.chars();
+    let mut it = expr.chars().peekable();
     while let Some(c0) = it.next() {
         loc += 1;
         match (state, c0) {
@@ -45,24 +45,14 @@ pub fn preprocess(expr: &str, file_id: FileID) -> Result<String, Box<Report>> {
                 state = 0;
             }
             (2, '*') => {
-                loc += 1;
-                match it.next() {
-                    Some('/') => {
-                        pp.push(' ');
-                        pp.push(' ');
-                        state = 0;
-                    }
-                    Some(c) => {
-                        pp.push(' ');
-                        for _i in 0..c.len_utf8() {
-                            pp.push(' ');
-                        }
-                    }
-                    None => {
-                        let error =
-                            UnclosedCommentError { location: block_start..block_start, file_id };
-                        return Err(Box::new(error.into_report()));
-                    }
+                pp.push(' ');
+                // Only consume the next character if it closes the comment. Otherwise it
+                // may be the `*` of the closing `*/` (as in `**/`).
+                if it.peek() == Some(&'/') {
+                    it.next();
+                    loc += 1;
+                    pp.push(' ');
+                    state = 0;
                 }
             }
             (_, c) => {
@@ -71,6 +61,11 @@ pub fn preprocess(expr: &str, file_id: FileID) -> Result<String, Box<Report>> {
                 }
             }
         }
+    }
+    if state == 2 {
+        // The input ended inside a block comment.
+        let error = UnclosedCommentError { location: block_start..block_start, file_id };
+        return Err(Box::new(error.into_report()));
     }
     Ok(pp)
 }
